@@ -25,15 +25,6 @@ there), and a variable whose read the pinned liveness does not see (closure decl
 namespace Malt.Func
 open Malt.Sem
 
-/-- The target state that holds exactly the bindings of a source state. -/
-def TSt.ofSt (σ : St) : TSt :=
-  ⟨fun x => match σ.env x with | some v => .val v | none => .unbound, σ.log⟩
-
-theorem agree_ofSt (L : List Name) (σ : St) : Agree L σ (TSt.ofSt σ) := by
-  refine ⟨fun x _ => ?_, rfl⟩
-  simp only [TSt.ofSt]
-  cases σ.env x <;> rfl
-
 /-- **Functionalisation preserves semantics** (native operators). -/
 theorem control_flow_correct (X : Ext) (p : ABlock) (D O : List Name) (hyp : FuncHyp D p O)
     (σ : St) (σ' : TSt) (hag : Agree (blockIn p O) σ σ') (hb : BoundSub σ D)
